@@ -25,7 +25,6 @@ import (
 	"errors"
 	"fmt"
 	"go/ast"
-	"go/format"
 	"go/parser"
 	"go/token"
 	"io"
@@ -39,6 +38,7 @@ import (
 	"github.com/pkg/diff"
 	"github.com/uber-go/gopatch/internal/astdiff"
 	"github.com/uber-go/gopatch/internal/engine"
+	"github.com/uber-go/gopatch/internal/goast"
 	"go.uber.org/multierr"
 	"golang.org/x/tools/imports"
 )
@@ -308,7 +308,7 @@ func (cmd *mainCmd) Run(args []string) error {
 		}
 
 		var out bytes.Buffer
-		if err := format.Node(&out, fset, f); err != nil {
+		if err := goast.Format(&out, fset, f); err != nil {
 			log.Printf("%s: failed: %v", filename, err)
 			errors = append(errors, fmt.Errorf("failed to rewrite %q: %v", filename, err))
 			continue
